@@ -70,6 +70,130 @@ def feature_obs(f):
             [(k, list(v)) for k, v in f.attributes._d.items()])
 
 
+CFG = dbside.Cfg(strategy="create_unique", keep_order=True, disG=True, disT=True)
+
+
+def mk_case(lines, specs, fmt, cl, mem, reimport_features):
+    """a self-contained case: the feature lines of the file (a '##gff-version 3' line is written first), the line
+    specification each was rendered from, the file extension, checklines, the kind of database, whether the
+    re-import of the Feature objects is part of the case"""
+    return {"scenario": "file", "input": list(lines), "records": [s.as_dict() for s in specs], "parallel": ["records"],
+            "config": CFG.to_json(), "ext": "gtf" if fmt == "gtf" else "gff3", "checklines": cl,
+            "dbfn": "memory" if mem else "file", "reimport_features": reimport_features}
+
+
+def import_file(ctx, case, dbname):
+    cfg = dbside.Cfg.from_json(case["config"])
+    path = dbside.write_lines(os.path.join(ctx.scratch, "c01." + case["ext"]), ["##gff-version 3"] + list(case["input"]))
+    dbfn = ":memory:" if case["dbfn"] == "memory" else os.path.join(ctx.scratch, dbname)
+    db, rep = dbside.py_create(path, cfg, dbfn=dbfn, checklines=case["checklines"])
+    return db, rep, cfg, dbfn
+
+
+def check_stored(case, specs, db, rep, res):
+    """stored once, in order, columns / extra / attributes / printed form.  returns None when the case is finished
+    (a failure, or nothing more to judge), else (features, in_domain)"""
+    lines = case["input"]
+    if db is None:
+        common.fail(res, case, "create_db_raised", "create_db raised on a well-formed file: " + rep, error=rep, observed=rep)
+        return None
+    feats = list(db.all_features())
+    if len(feats) != len(specs):
+        common.fail(res, case, "feature_count", "not one stored feature per input line", observed=len(feats), expected=len(specs))
+        return None
+    want_d = C09.spec_dialect(specs[0])
+    voted = db.dialect
+    dims_ok = all(voted[k] == want_d[k] for k in pyside.DKEYS[:-1])
+    order = voted["order"]
+    pos = {k: i for i, k in enumerate(order)}
+    order_ok = all([k for k, _ in s.attrs] == sorted([k for k, _ in s.attrs], key=lambda k: pos.get(k, 10 ** 6))
+                   for s in specs)
+    in_domain = dims_ok and order_ok
+    res.count("in_domain" if in_domain else ("vote_differs" if not dims_ok else "order_inconsistent"))
+    for s, f, line in zip(specs, feats, lines):
+        cols, extra, attrs = feature_obs(f)
+        if cols != list(s.cols) or extra != list(s.extra):
+            common.fail(res, case, "columns_differ", "columns / extra columns of a stored feature differ from the input line",
+                        line=line, observed=str(f))
+            return None
+        if in_domain and attrs != [(k, list(v)) for k, v in s.attrs]:
+            common.fail(res, case, "attributes_differ", "attribute keys/values of a stored feature differ from the input line",
+                        line=line, observed=attrs, expected=[(k, list(v)) for k, v in s.attrs])
+            return None
+        if in_domain and str(f) != line:
+            common.fail(res, case, "printed_not_identical", "printed feature is not byte-identical to its input line",
+                        expected=line, observed=str(f))
+            return None
+    return feats, in_domain
+
+
+def check_reimports(ctx, case, db, dbfn, cfg, feats, in_domain, res):
+    """same content after close + reopen; re-importing the printed features, and the Feature objects themselves,
+    gives an equivalent database"""
+    import gffutils
+    import warnings
+    cl = case["checklines"]
+    printed = [str(f) for f in feats]
+    if case["dbfn"] != "memory":
+        db.conn.commit()
+        db2 = gffutils.FeatureDB(dbfn, keep_order=True)
+        p2 = [str(f) for f in db2.all_features()]
+        if p2 != printed or db2.dialect != db.dialect or db2.directives != db.directives:
+            common.fail(res, case, "reopen_differs", "content differs after closing and reopening the database file",
+                        observed=p2, expected=printed)
+    # re-import of the printed features
+    if in_domain:
+        path2 = dbside.write_lines(os.path.join(ctx.scratch, "c01b." + case["ext"]), ["##gff-version 3"] + printed)
+        db3, rep3 = dbside.py_create(path2, cfg, checklines=cl)
+        if db3 is None or dbside.dump(db3) != dbside.dump(db):
+            common.fail(res, case, "reimport_printed_differs", "re-importing the printed features does not give an equivalent database",
+                        reimport=rep3, printed=printed)
+    # ... and re-importing the features themselves (FeatureDB / one-shot generator input; more than checklines
+    # features go through the dialect peek of the feature iterator)
+    if in_domain and case["reimport_features"]:
+        for form in ("FeatureDB", "generator"):
+            src = db if form == "FeatureDB" else db.all_features()
+            try:
+                with warnings.catch_warnings():
+                    warnings.simplefilter("ignore")
+                    db4 = gffutils.create_db(src, ":memory:", checklines=cl, merge_strategy="create_unique", keep_order=True,
+                                             disable_infer_genes=True, disable_infer_transcripts=True)
+                p4 = [str(f) for f in db4.all_features()]
+            except Exception as ex:
+                p4 = "raised %r" % ex
+            res.evaluations += 1
+            if p4 != printed:
+                common.fail(res, case, "reimport_features_differs", "re-importing the features (as %s) does not give an equivalent database" % form,
+                            form=form, observed=p4 if isinstance(p4, str) else len(p4), expected=len(printed))
+
+
+def corr_commands(db, rep, lines, cfg, cl, tag, nget=3):
+    """the model commands of one imported file and what the real code answered: (cmds, exp, components)"""
+    cmds = [dbside.cmd_create(lines, cfg, checklines=cl)]
+    exp = [rep]
+    comps = ["create_db" + tag]
+    if db is not None:
+        feats = list(db.all_features())
+        cmds.append("dump"); exp.append(dbside.dump(db)); comps.append("tables after import" + tag)
+        cmds.append("q " + dbside.cmd_query()); exp.append("ok " + pyside.enc_list([f.id for f in feats]))
+        comps.append("all_features order" + tag)
+        for f in feats[:nget]:
+            cmds.append("get " + enc(f.id)); exp.append("ok " + pyside.enc_feature(f)); comps.append("db[id] + str()" + tag)
+    return cmds, exp, comps
+
+
+def judge(ctx, case):
+    res = common.Result("C01")
+    if case.get("scenario") != "file" or len(case["input"]) != len(case["records"]):
+        return res
+    specs = [gen_spec.Spec.from_dict(d) for d in case["records"]]
+    db, rep, cfg, dbfn = import_file(ctx, case, "c01_judge.db")
+    st = check_stored(case, specs, db, rep, res)
+    if st is not None:
+        check_reimports(ctx, case, db, dbfn, cfg, st[0], st[1], res)
+    return res
+
+
 def run(ctx):
     import gffutils
     from gffutils import iterators
@@ -91,92 +215,21 @@ def run(ctx):
         cl = r.choice([10, 10, 0, 1, n - 1, n, n + 2, 3])
         cl = max(cl, 0)
         mem = r.random() < 0.5
-        ext = "gtf" if fmt == "gtf" else "gff3"
-        path = dbside.write_lines(os.path.join(ctx.scratch, "c01." + ext), ["##gff-version 3"] + lines)
-        dbfn = ":memory:" if mem else os.path.join(ctx.scratch, "c01_%d.db" % fi)
-        cfg = dbside.Cfg(strategy="create_unique", keep_order=True, disG=True, disT=True)
-        db, rep = dbside.py_create(path, cfg, dbfn=dbfn, checklines=cl)
+        case = mk_case(lines, specs, fmt, cl, mem, fi % 2 == 0)
+        db, rep, cfg, dbfn = import_file(ctx, case, "c01_%d.db" % fi)
         res.evaluations += 1
         inp = {"lines": lines, "checklines": cl, "dbfn": "memory" if mem else "file"}
-        cmds.append(dbside.cmd_create(["##gff-version 3"] + lines, cfg, checklines=cl)); exp.append(rep)
-        tags.append(("create_db", repr(inp)))
-        if db is None:
-            res.oracle_failures.append(("create_db raised on a well-formed file: " + rep, inp))
+        ccase = {"scenario": "file", "input": lines, "checklines": cl, "dbfn": inp["dbfn"], "ext": case["ext"], "config": case["config"]}
+        c1, e1, t1 = corr_commands(db, rep, ["##gff-version 3"] + lines, cfg, cl, "")
+        cmds += c1[:1]; exp += e1[:1]; tags += [(t, ccase) for t in t1[:1]]
+        st = check_stored(case, specs, db, rep, res)
+        if st is None:
             continue
-        feats = list(db.all_features())
-        # stored once, in order, columns / extra / attributes
-        if len(feats) != len(specs):
-            res.oracle_failures.append(("not one stored feature per input line", dict(inp, stored=len(feats))))
-            continue
-        want_d = C09.spec_dialect(specs[0])
-        voted = db.dialect
-        dims_ok = all(voted[k] == want_d[k] for k in pyside.DKEYS[:-1])
-        order = voted["order"]
-        pos = {k: i for i, k in enumerate(order)}
-        order_ok = all([k for k, _ in s.attrs] == sorted([k for k, _ in s.attrs], key=lambda k: pos.get(k, 10 ** 6))
-                       for s in specs)
-        in_domain = dims_ok and order_ok
-        res.count("in_domain" if in_domain else ("vote_differs" if not dims_ok else "order_inconsistent"))
-        bad = False
-        for s, f, line in zip(specs, feats, lines):
-            cols, extra, attrs = feature_obs(f)
-            if cols != list(s.cols) or extra != list(s.extra):
-                res.oracle_failures.append(("columns / extra columns of a stored feature differ from the input line",
-                                            dict(inp, line=line, stored=str(f))))
-                bad = True
-                break
-            if in_domain and attrs != [(k, list(v)) for k, v in s.attrs]:
-                res.oracle_failures.append(("attribute keys/values of a stored feature differ from the input line",
-                                            dict(inp, line=line, stored=attrs)))
-                bad = True
-                break
-            if in_domain and str(f) != line:
-                res.oracle_failures.append(("printed feature is not byte-identical to its input line",
-                                            dict(inp, line=line, printed=str(f))))
-                bad = True
-                break
-        if bad:
-            continue
+        feats, in_domain = st
         if in_domain and n >= 2:
             res.nontriv(tuple(lines))
-        printed = [str(f) for f in feats]
-        cmds.append("dump"); exp.append(dbside.dump(db)); tags.append(("tables after import", repr(inp)))
-        cmds.append("q " + dbside.cmd_query()); exp.append("ok " + pyside.enc_list([f.id for f in feats]))
-        tags.append(("all_features order", repr(inp)))
-        for f in feats[:3]:
-            cmds.append("get " + enc(f.id)); exp.append("ok " + pyside.enc_feature(f)); tags.append(("db[id] + str()", repr(inp)))
-        # reopen
-        if not mem:
-            db.conn.commit()
-            db2 = gffutils.FeatureDB(dbfn, keep_order=True)
-            p2 = [str(f) for f in db2.all_features()]
-            if p2 != printed or db2.dialect != db.dialect or db2.directives != db.directives:
-                res.oracle_failures.append(("content differs after closing and reopening the database file", inp))
-        # re-import of the printed features
-        if in_domain:
-            path2 = dbside.write_lines(os.path.join(ctx.scratch, "c01b." + ext), ["##gff-version 3"] + printed)
-            db3, rep3 = dbside.py_create(path2, cfg, checklines=cl)
-            if db3 is None or dbside.dump(db3) != dbside.dump(db):
-                res.oracle_failures.append(("re-importing the printed features does not give an equivalent database",
-                                            dict(inp, reimport=rep3)))
-        # ... and re-importing the features themselves (FeatureDB / one-shot generator input; more than checklines
-        # features go through the dialect peek of the feature iterator)
-        if in_domain and fi % 2 == 0:
-            for form in ("FeatureDB", "generator"):
-                src = db if form == "FeatureDB" else db.all_features()
-                try:
-                    import warnings
-                    with warnings.catch_warnings():
-                        warnings.simplefilter("ignore")
-                        db4 = gffutils.create_db(src, ":memory:", checklines=cl, merge_strategy="create_unique", keep_order=True,
-                                                 disable_infer_genes=True, disable_infer_transcripts=True)
-                    p4 = [str(f) for f in db4.all_features()]
-                except Exception as ex:
-                    p4 = "raised %r" % ex
-                res.evaluations += 1
-                if p4 != printed:
-                    res.oracle_failures.append(("re-importing the features (as %s) does not give an equivalent database" % form,
-                                                dict(inp, got=p4 if isinstance(p4, str) else len(p4), expected=len(printed))))
+        cmds += c1[1:]; exp += e1[1:]; tags += [(t, ccase) for t in t1[1:]]
+        check_reimports(ctx, case, db, dbfn, cfg, feats, in_domain, res)
         if len(res.samples) < 2:
             res.sample(inp)
     # repository data files: correspondence of the whole import (no byte-identity claim: mixed dialects) --------------
@@ -199,28 +252,97 @@ def run(ctx):
         db, rep = dbside.py_create(fn, cfg)
         res.evaluations += 1
         nfiles += 1
-        cmds.append(dbside.cmd_create(lines, cfg)); exp.append(rep); tags.append(("create_db (data file)", fn))
+        dcase = {"scenario": "data_file", "file": os.path.relpath(fn, common.repo_dir())}
+        cmds.append(dbside.cmd_create(lines, cfg)); exp.append(rep); tags.append(("create_db (data file)", dcase))
         if db is not None:
-            cmds.append("dump"); exp.append(dbside.dump(db)); tags.append(("tables (data file)", fn))
+            cmds.append("dump"); exp.append(dbside.dump(db)); tags.append(("tables (data file)", dcase))
             feats = list(db.all_features())
             k = len(feats)
             cmds.append("q " + dbside.cmd_query()); exp.append("ok " + pyside.enc_list([f.id for f in feats]))
-            tags.append(("all_features order (data file)", fn))
+            tags.append(("all_features order (data file)", dcase))
             for f in feats[: 5]:
-                cmds.append("get " + enc(f.id)); exp.append("ok " + pyside.enc_feature(f)); tags.append(("db[id] (data file)", fn))
+                cmds.append("get " + enc(f.id)); exp.append("ok " + pyside.enc_feature(f)); tags.append(("db[id] (data file)", dcase))
     res.count("data_files", nfiles)
     out = ctx.model(cmds)
     if out is not None:
         for c, m, e, (comp, inp) in zip(cmds, out, exp, tags):
             res.corr_checked += 1
             if m != e:
-                res.corr_disagreements.append((comp, inp[:600], m[:500], e[:500]))
+                res.corr_disagreements.append((comp, inp, m[:500], e[:500]))
     res.assumptions = ["single-dialect domain as in DESIGN.md §3 C01: the window exhibits the dialect; per-line key order "
                        "consistent with the voted order", "keys unique or merge_strategy=create_unique"]
+    common.shrink_first_failure(res, lambda case: judge(ctx, case))
+    if not res.oracle_failures and res.corr_disagreements:
+        shrink_first_disagreement(ctx, res)
     return res
 
 
+def corr_case(ctx, ccase):
+    """model and real code on one file of the correspondence (a generated file given by its lines, or one of the
+    repository's data files): the list of (component, model, impl) that differ"""
+    if ccase.get("scenario") == "data_file":
+        fn = os.path.join(common.repo_dir(), ccase["file"])
+        lines = open(fn, encoding="utf-8").read().split("\n")
+        if lines and lines[-1] == "":
+            lines.pop()
+        cfg, cl = CFG, 10
+        db, rep = dbside.py_create(fn, cfg)
+        cmds, exp, comps = corr_commands(db, rep, lines, cfg, cl, " (data file)", nget=5)
+    else:
+        db, rep, cfg, dbfn = import_file(ctx, ccase, "c01_corr.db")
+        cl = ccase["checklines"]
+        cmds, exp, comps = corr_commands(db, rep, ["##gff-version 3"] + list(ccase["input"]), cfg, cl, "")
+    out = ctx.model(cmds)
+    if out is None:
+        raise common.Infra("the model driver is not available: the correspondence cannot be replayed")
+    return [(comp, m[:500], e[:500]) for comp, m, e in zip(comps, out, exp) if m != e]
+
+
+def shrink_first_disagreement(ctx, res):
+    """no oracle failure, but model and code differ: shrink the lines of the first differing generated file (the
+    same component must still differ)"""
+    comp, inp, m, e = res.corr_disagreements[0]
+    if not isinstance(inp, dict) or inp.get("scenario") != "file" or len(inp["input"]) < 2:
+        return
+    best = [None]
+
+    def still_differs(lines):
+        d = [x for x in corr_case(ctx, dict(inp, input=lines)) if x[0] == comp]
+        if d:
+            best[0] = d[0]
+        return bool(d)
+    small = common.shrink_lines(inp["input"], still_differs)
+    if best[0] is not None and len(small) < len(inp["input"]):
+        res.corr_disagreements[0] = (comp, dict(inp, input=small, input_unshrunk=inp["input"], shrunk=True), best[0][1], best[0][2])
+
+
 def replay(ctx, payload):
+    if isinstance(payload.get("input"), dict):
+        return common.replay_failure("C01", payload, lambda case: judge(ctx, case))
+    # a replay of `no-failing-input-found`: re-run the correspondence on the first recorded disagreement
     res = common.Result("C01")
-    print("replay:", payload.get("what"), payload.get("input"))
+    for p in payload.get("proof_obligations_broken", []):
+        print("replay: recorded as broken proof obligation: %s" % p[:300])
+    for d in payload.get("correspondence_broken", []):
+        inp = d.get("input")
+        if not isinstance(inp, dict):
+            continue
+        print("replay: property C01, correspondence component %r" % d.get("component"))
+        for k in sorted(inp):
+            if k not in ("input", "input_unshrunk", "config"):
+                print("replay:   %s = %r" % (k, inp[k]))
+        for l in inp.get("input", []):
+            print("replay:     %r" % l)
+        print("replay:   recorded: model %s" % d.get("model", "")[:300])
+        print("replay:   recorded: impl  %s" % d.get("impl", "")[:300])
+        diff = corr_case(ctx, inp)
+        res.corr_checked = 1
+        for comp, m, e in diff:
+            print("replay:   now %s: model %s" % (comp, m[:300]))
+            print("replay:   now %s: impl  %s" % (comp, e[:300]))
+            res.corr_disagreements.append((comp, inp, m, e))
+        print("replay: verdict: model and real code %s on this input (%s)" % ("differ" if diff else "agree", common.repo_dir()))
+        break
+    else:
+        print("replay: nothing replayable in this file")
     return res
